@@ -272,6 +272,32 @@ def genText (k : Nat) : String :=
   let ds := Nat.toDigits 16 k
   "00000000-0000-4000-8000-" ++ String.ofList (List.replicate (12 - ds.length) '0' ++ ds)
 
+/-- `create_section(name, type[, oid])` under `p`; with an `oid`: what `Section.create_new` stores for it (as
+extracted), if anything -/
+def createS (s : St) (p n t : Json) (oid : Option String) : St × Json :=
+  let texts := textsOf s.given genText
+  let (f', r) := handleV texts s.f (Json.arr #[Json.str "create_section", p, n, t])
+  if f'.next == s.f.next + 1 then
+    match oid.bind (storedId IdLookup.shape) with
+    | some tx => ({ f := f', given := (s.f.next, tx) :: s.given }, r)
+    | none => ({ s with f := f' }, r)
+  else ({ s with f := f' }, r)
+
+/-- a tree `[name, type, oid | null, [subtrees]]` built elsewhere and copied in with its ids kept
+(`dest.copy_section(top, children=True, keep_id=True)` from another file): the same sections, the same id texts,
+keys in preorder.  `none`: a node below the top could not be made (malformed tree) -/
+partial def importNode (s : St) (parent : Json) (node : Json) : Option (St × Json) :=
+  match (jArr node).toList with
+  | [n, t, oid, kids] =>
+    let k := s.f.next
+    let (s1, r) := createS s parent n t (match oid with | Json.str o => some o | _ => none)
+    if s1.f.next != k + 1 then some (s, r) else
+    (jArr kids).toList.foldlM (fun (acc : St × Json) kid =>
+      match importNode acc.1 (jKey k) kid with
+      | some (s2, _) => if s2.f.next == acc.1.f.next then none else some (s2, acc.2)
+      | none => none) (s1, r)
+  | _ => none
+
 def handleS (s : St) (j : Json) : St × Json :=
   let texts := textsOf s.given genText
   match (jArr j).toList with
@@ -281,14 +307,13 @@ def handleS (s : St) (j : Json) : St × Json :=
     (s, match canonText? t with
         | some c => ok (Json.str c)
         | none => err .valueError)
-  -- the caller supplies the id (`oid=`): what `Section.create_new` stores for it (as extracted), if anything
-  | [Json.str "create_section", p, n, t, Json.str oid] =>
-    let (f', r) := handleV texts s.f (Json.arr #[Json.str "create_section", p, n, t])
-    if f'.next == s.f.next + 1 then
-      match storedId IdLookup.shape oid with
-      | some tx => ({ f := f', given := (s.f.next, tx) :: s.given }, r)
-      | none => ({ s with f := f' }, r)
-    else ({ s with f := f' }, r)
+  | [Json.str "create_section", p, n, t, Json.str oid] => createS s p n t (some oid)
+  | [Json.str "import_section", dest, tree] =>
+    match importNode s dest tree with
+    | some (s', r) =>
+      -- nothing is cached on a handle: the copy is reached through re-fetched handles only
+      (s', r)
+    | none => (s, bad "C13: import_section")
   | _ =>
     let (f', r) := handleV texts s.f j
     ({ s with f := f' }, r)
